@@ -417,6 +417,8 @@ def prop_interface(spec, rec):
         labels.add("price_changes_during_sim")
     if any(o["t"] > 0 for o in algo.obs):
         labels.add("queried_after_period_0")
+    if spec["period"] != int(spec["period"]):
+        labels.add("fractional_period")
     if max(power) > 0:
         labels.add("energy_delivered")
     if r.lookup(at(R.shape[1] - 1))[1] != r.lookup(start)[1]:
@@ -435,7 +437,8 @@ def interface_cases(draw):
         sessions.append({"arrival": a, "departure": a + draw(st.integers(1, 30)), "energy": draw(st.sampled_from([0.5, 4.0, 30.0]))})
     tariff = draw(st.sampled_from(TARIFFS))
     start = draw(instants())
-    period = draw(st.sampled_from([1, 5, 15, 60]))
+    # the simulator's period is a float: half-minute, 2.5- and 7.5-minute periods as well
+    period = draw(st.sampled_from([1, 5, 15, 60, 2.5, 7.5, 0.5]))
     if draw(st.integers(0, 7)) == 0:
         # the only bundled tariff whose demand rate differs between seasons: start on the last
         # evening of a season and run into the next one
